@@ -16,6 +16,8 @@ import (
 	"io"
 	"os"
 	"path/filepath"
+	"sync/atomic"
+	"time"
 
 	"github.com/OneOfOne/xxhash"
 	"github.com/spaolacci/murmur3"
@@ -25,6 +27,9 @@ import (
 	"github.com/ARM-software/golang-utils/utils/hashing"
 
 	"verif/harness/internal/h"
+	"verif/harness/internal/shim"
+
+	"github.com/spf13/afero"
 )
 
 var algos = []string{hashing.HashMd5, hashing.HashSha1, hashing.HashSha256, hashing.HashBlake2256, hashing.HashXXHash, hashing.HashMurmur}
@@ -65,13 +70,28 @@ type scenario struct {
 	Algo  string `json:"algo"`
 	Hist  [][]ev `json:"hist"`
 	Final []ev   `json:"final"`
+	// EOFWithData: the readers return io.EOF together with their last non-empty chunk (n > 0, io.EOF), as
+	// iotest.DataErrReader and decompressing readers do, instead of (0, io.EOF) on a further call
+	EOFWithData bool `json:"eof_with_data,omitempty"`
 }
 
 type scriptReader struct {
-	evs    []ev
-	i      int
-	off    int
-	cancel context.CancelFunc
+	evs         []ev
+	i           int
+	off         int
+	cancel      context.CancelFunc
+	eofWithData bool
+}
+
+// lastData reports whether every event after index i delivers nothing more (so event i is the last data of a
+// successful script)
+func (r *scriptReader) lastData(i int) bool {
+	for _, e := range r.evs[i+1:] {
+		if e.Kind != 0 || len(e.B) > 0 {
+			return false
+		}
+	}
+	return true
 }
 
 var errInjected = errors.New("harness: injected read failure")
@@ -98,6 +118,11 @@ func (r *scriptReader) Read(p []byte) (int, error) {
 			n := copy(p, rest)
 			r.off += n
 			if r.off >= len(e.B) {
+				if r.eofWithData && n > 0 && r.lastData(r.i) {
+					r.i = len(r.evs)
+					r.off = 0
+					return n, io.EOF
+				}
 				r.i++
 				r.off = 0
 			}
@@ -146,10 +171,12 @@ func outcome(s []ev) string {
 	return "success"
 }
 
+var eofWithData bool // reader behaviour of the scenario being run
+
 func runCalc(hs hashing.IHash, s []ev) (string, error) {
 	ctx, cancel := context.WithCancel(context.Background())
 	defer cancel()
-	return hs.CalculateWithContext(ctx, &scriptReader{evs: s, cancel: cancel})
+	return hs.CalculateWithContext(ctx, &scriptReader{evs: s, cancel: cancel, eofWithData: eofWithData})
 }
 
 func coqEvs(s []ev) string {
@@ -162,6 +189,10 @@ func coqEvs(s []ev) string {
 
 func runScenario(r *h.Run, sc scenario, emit bool) {
 	r.Eval()
+	eofWithData = sc.EOFWithData
+	if sc.EOFWithData {
+		r.Count("reader:eof-with-last-data")
+	}
 	hs, err := hashing.NewHashingAlgorithm(sc.Algo)
 	if err != nil {
 		r.Fail("constructor:"+sc.Algo, "NewHashingAlgorithm failed: "+err.Error(), sc)
@@ -366,6 +397,111 @@ func fileScenarios(r *h.Run) {
 	}
 }
 
+// fileHistoryScenarios: the same IFileHash object over a history of files — a path whose content is replaced by
+// different bytes of the same size with its modification time restored (cp -p, unzip, Chtimes) must hash to the NEW
+// bytes ("hashing a file returns the value of hashing its bytes"); and a calculation that fails after the file was
+// opened (read error at byte k, context cancelled at byte k) must report an error, never a digest, and must not
+// poison the next calculation.
+func fileHistoryScenarios(r *h.Run) {
+	tmp, err := os.MkdirTemp("", "verif-c20h-*")
+	if err != nil {
+		r.Note("cannot create temp dir: " + err.Error())
+		return
+	}
+	defer os.RemoveAll(tmp)
+	type backend struct {
+		name string
+		mk   func(hook shim.Hook) (filesystem.FS, *shim.Fs)
+		dir  string
+	}
+	backends := []backend{
+		{"os", func(hk shim.Hook) (filesystem.FS, *shim.Fs) {
+			sh := shim.New(afero.NewOsFs(), hk)
+			return filesystem.NewVirtualFileSystem(sh, filesystem.StandardFS, filesystem.IdentityPathConverterFunc), sh
+		}, tmp},
+		{"mem", func(hk shim.Hook) (filesystem.FS, *shim.Fs) {
+			sh := shim.New(afero.NewMemMapFs(), hk)
+			return filesystem.NewVirtualFileSystem(sh, filesystem.InMemoryFS, filesystem.IdentityPathConverterFunc), sh
+		}, "/h"},
+	}
+	for _, b := range backends {
+		for _, algo := range algos {
+			fs, sh := b.mk(nil)
+			_ = fs.MkDir(b.dir)
+			fh, err := filesystem.NewFileHash(algo)
+			if err != nil {
+				continue
+			}
+			// (a) same path, same size, same mtime, different bytes
+			for _, n := range []int{1, 64, 4096, 40000} {
+				p := filepath.Join(b.dir, fmt.Sprintf("r_%s_%d", algo, n))
+				c1, c2 := randBytes(r, n), randBytes(r, n)
+				if bytes.Equal(c1, c2) {
+					c2[0] ^= 0xff
+				}
+				if fs.WriteFile(p, c1, 0o644) != nil {
+					continue
+				}
+				old := time.Now().Add(-48 * time.Hour).Truncate(time.Second)
+				_ = fs.Chtimes(p, old, old)
+				d1, e1 := fh.CalculateFile(fs, p)
+				_ = fs.WriteFile(p, c2, 0o644)
+				_ = fs.Chtimes(p, old, old)
+				d2, e2 := fh.CalculateFile(fs, p)
+				r.Eval()
+				r.Count("file-hash:replaced-same-size-same-mtime:" + b.name)
+				r.Distinct(fmt.Sprintf("replaced|%s|%s|%d", b.name, algo, n))
+				if e1 != nil || e2 != nil {
+					r.Fail("file-hash-error:"+b.name, fmt.Sprintf("CalculateFile failed: %v / %v", e1, e2), map[string]any{"algo": algo, "size": n, "backend": b.name})
+				} else if d1 != ref(algo, c1) || d2 != ref(algo, c2) {
+					r.Fail("file-hash-stale-after-replace:"+b.name+":"+algo, fmt.Sprintf("a %d-byte file was replaced by different content of the same size and modification time; the same IFileHash then returned a digest that is not the digest of the file's bytes", n), map[string]any{"algo": algo, "size": n, "backend": b.name})
+				}
+			}
+			// (b) faults after the file has been opened: read error / cancellation at the k-th read of the file
+			content := randBytes(r, 100000)
+			p := filepath.Join(b.dir, "f_"+algo)
+			if fs.WriteFile(p, content, 0o644) != nil {
+				continue
+			}
+			for _, mode := range []string{"read-error", "cancel"} {
+				for _, k := range []int{0, 1, 2} {
+					ctx, cancel := context.WithCancel(context.Background())
+					var reads int32
+					sh.SetHook(func(op *shim.Op) error {
+						if op.Name == "f.Read" && op.Path == p {
+							i := int(atomic.AddInt32(&reads, 1)) - 1
+							if i == k {
+								if mode == "cancel" {
+									cancel()
+									return nil
+								}
+								return errors.New("harness: injected read failure on the file")
+							}
+						}
+						return nil
+					})
+					d, err := fh.CalculateFileWithContext(ctx, fs, p)
+					sh.SetHook(func(*shim.Op) error { return nil })
+					cancel()
+					r.Eval()
+					r.Count("file-hash:fault-after-open:" + mode + ":" + b.name)
+					r.Distinct(fmt.Sprintf("fault|%s|%s|%s|%d", b.name, algo, mode, k))
+					if err == nil && d != ref(algo, content) {
+						r.Fail("file-hash-failure-not-reported:"+b.name+":"+mode, fmt.Sprintf("hashing a file whose %s happened at read %d returned digest %q and no error", mode, k, d), map[string]any{"algo": algo, "backend": b.name, "mode": mode, "k": k})
+					}
+					if n := sh.OpenHandles(); n != 0 {
+						r.Fail("file-hash-handle-leak:"+b.name, fmt.Sprintf("%d file handle(s) left open after a failed file hash", n), map[string]any{"algo": algo, "backend": b.name, "mode": mode, "k": k})
+					}
+					// the next calculation on the same object must be right
+					if d2, e2 := fh.CalculateFile(fs, p); e2 != nil || d2 != ref(algo, content) {
+						r.Fail("file-hash-poisoned-by-failure:"+b.name+":"+algo, "the calculation following a failed file hash is wrong", map[string]any{"algo": algo, "backend": b.name, "mode": mode, "k": k})
+					}
+				}
+			}
+		}
+	}
+}
+
 func main() {
 	r := h.Init("C20")
 	r.Imports = []string{"GU.C20.Model"}
@@ -384,6 +520,7 @@ func main() {
 		runScenario(r, scenario{Algo: a, Hist: [][]ev{{{Kind: 0, B: []byte("abc")}, {Kind: 2, B: []byte("zz")}}}, Final: []ev{{Kind: 0, B: []byte("hello world")}}}, true)
 		runScenario(r, scenario{Algo: a, Hist: [][]ev{{{Kind: 0, B: []byte("ok")}}, {{Kind: 0, B: []byte("abc")}, {Kind: 1, B: []byte("d")}}, {{Kind: 0, B: []byte("fine")}}}, Final: []ev{{Kind: 0, B: []byte("hello world")}}}, true)
 		runScenario(r, scenario{Algo: a, Hist: nil, Final: nil}, true)
+		runScenario(r, scenario{Algo: a, Hist: [][]ev{{{Kind: 0, B: []byte("abc")}}}, Final: []ev{{Kind: 0, B: []byte("hello ")}, {Kind: 0, B: []byte("world")}}, EOFWithData: true}, true)
 		// a stream that breaks off midway is a failure whatever error value the reader uses (truncated stream = io.ErrUnexpectedEOF, ...)
 		for e := range injectedErrs {
 			runScenario(r, scenario{Algo: a, Hist: [][]ev{{{Kind: 0, B: []byte("partial ")}, {Kind: 1, B: []byte("da"), E: e}}, {{Kind: 1, E: e}}}, Final: []ev{{Kind: 0, B: []byte("hello world")}}}, e < 2)
@@ -423,8 +560,9 @@ func main() {
 		default:
 			content = randBytes(r, r.Rng.Intn(maxLen+1))
 		}
-		runScenario(r, scenario{Algo: a, Hist: hist, Final: genChunks(r, content)}, small)
+		runScenario(r, scenario{Algo: a, Hist: hist, Final: genChunks(r, content), EOFWithData: r.Rng.Intn(3) == 0}, small)
 	}
 	fileScenarios(r)
+	fileHistoryScenarios(r)
 	r.Finish()
 }
